@@ -148,10 +148,15 @@ def reuse_strategy(tier):
     return st.fixed_dictionaries({"root": st.sampled_from(["module", "dfg", "custom"]), "mut": st.one_of(store.reuse_mutations(30 if tier == "quick" else 50), store.holes_mutations())})
 
 
+def order_strategy(tier):
+    return st.fixed_dictionaries({"root": st.sampled_from(["dfg", "custom"]), "mut": store.order_port_mutations(14 if tier == "quick" else 24)})
+
+
 REQUIRES = {"children-not-in-index-order": _has_unsorted_children}
 
 SUBS = [
     Sub("programs", check, strategy=prog_strategy, nontrivial=nontrivial, classes=classes, n_quick=300, n_thorough=2000, sample_ok=lambda c: len(json.dumps(c)) < 3000),
     Sub("raw", check, fuzz_runs=1000, strategy=raw_strategy, nontrivial=nontrivial, classes=classes, n_quick=300, n_thorough=2000),
+    Sub("order-ports", check, strategy=order_strategy, nontrivial=nontrivial, classes=classes, n_quick=150, n_thorough=1000),
     Sub("index-reuse", check, fuzz_runs=1000, strategy=reuse_strategy, nontrivial=nontrivial, classes=classes, n_quick=250, n_thorough=1500),
 ]
